@@ -6,6 +6,8 @@ From Verif Require Tie.Pin_CRSVersionRegex_src Tie.Pin_ShortCRSVersionRegex_src 
   Tie.Pin_CRSYearSecRuleVerRegex_src Tie.Pin_CRSVersionComponentSignatureRegex_src
   Tie.Pin_lits_chore_update_copyright_updateRules Tie.Pin_lits_chore_update_copyright_UpdateCopyright
   Tie.Pin_lits_chore_update_copyright_processFile Tie.Pin_max_scan_token_size Tie.Pin_scan_limit_copyright_update_rules.
+From Coq Require Import Permutation.
+From Verif Require Model.RuleId Model.Update Model.Renumber Model.Cli Proofs.CliProofs Proofs.CliOrderProofs.
 Open Scope N_scope.
 
 (* all other text is untouched: a line on which none of the five marker patterns can
@@ -49,3 +51,18 @@ Theorem C14_idempotent_refuted :
   let once := update_rules 65536 $"4.1.0-RC1" $"2025" c14_witness in
   update_rules 65536 $"4.1.0-RC1" $"2025" once <> once.
 Proof. exact update_not_idempotent_refuted. Qed.
+
+(* EVERYWHERE, whole command on the tree model: every *.conf / *.example file of the walk ends as the
+   line-wise rewrite of its own bytes - whatever the other files contain and in whatever order the walk
+   presents them - and no other file is touched (C15_copyright_frame) *)
+Theorem C14_every_selected_file_is_rewritten : forall limit v y files t p c,
+  NoDup files -> In p files -> Cli.copyright_selected p = true -> Cli.t_get t p = Some c ->
+  Cli.t_get (Cli.copyright_all (update_rules limit v y) files t) p = Some (update_rules limit v y c).
+Proof. intros limit v y. exact (CliOrderProofs.copyright_all_is_each_alone (update_rules limit v y)). Qed.
+Print Assumptions C14_every_selected_file_is_rewritten.
+
+Theorem C14_result_independent_of_walk_order : forall limit v y files files' t,
+  Permutation files files' ->
+  Cli.copyright_all (update_rules limit v y) files t = Cli.copyright_all (update_rules limit v y) files' t.
+Proof. intros limit v y. exact (CliOrderProofs.copyright_all_order_independent (update_rules limit v y)). Qed.
+Print Assumptions C14_result_independent_of_walk_order.
